@@ -28,7 +28,7 @@ package visitor
 // for the node's kind gets the same parameters, and its verdict is passed on; a node replaced by the
 // callback is left and the replacement entered.
 //@ func VisitWithTypeInfo$1
-//@   props C14
+//@   props C14 C02
 //@   nosafety
 //@   opt invoke.Enter=pure
 //@   opt invoke.Leave=pure
@@ -46,7 +46,7 @@ package visitor
 // Leave: the wrapped visitor's leave callback (if it has one for the kind) runs first, and the tracker
 // leaves the node exactly once whether or not there is such a callback.
 //@ func VisitWithTypeInfo$2
-//@   props C14
+//@   props C14 C02
 //@   nosafety
 //@   opt invoke.Leave=pure
 //@   opt invoke.GetKind=pure
